@@ -457,6 +457,20 @@ impl<T> DataReaderEntity<T> {
             return Ok(AddChangeResult::NotAdded);
         }
 
+        let num_alive_samples_of_instance = self
+            .sample_list
+            .iter()
+            .filter(|cc| {
+                cc.instance_handle == sample.instance_handle && cc.kind == ChangeKind::Alive
+            })
+            .count() as u32;
+        // With KEEP_LAST the new sample replaces the oldest one of its instance once depth is
+        // reached, so it does not add to the number of stored samples
+        let replaces_oldest_sample = matches!(
+            self.qos.history.kind,
+            HistoryQosPolicyKind::KeepLast(depth) if depth == num_alive_samples_of_instance
+        );
+
         let is_max_samples_limit_reached = {
             let total_samples = self
                 .sample_list
@@ -464,7 +478,7 @@ impl<T> DataReaderEntity<T> {
                 .filter(|cc| cc.kind == ChangeKind::Alive)
                 .count();
 
-            total_samples == self.qos.resource_limits.max_samples
+            !replaces_oldest_sample && total_samples == self.qos.resource_limits.max_samples
         };
         let is_max_instances_limit_reached = {
             let mut instance_handle_list = Vec::new();
@@ -487,7 +501,8 @@ impl<T> DataReaderEntity<T> {
                 .filter(|cc| cc.instance_handle == sample.instance_handle)
                 .count();
 
-            total_samples_of_instance == self.qos.resource_limits.max_samples_per_instance
+            !replaces_oldest_sample
+                && total_samples_of_instance == self.qos.resource_limits.max_samples_per_instance
         };
         if is_max_samples_limit_reached {
             return Ok(AddChangeResult::Rejected(
@@ -505,25 +520,16 @@ impl<T> DataReaderEntity<T> {
                 SampleRejectedStatusKind::RejectedBySamplesPerInstanceLimit,
             ));
         }
-        let num_alive_samples_of_instance = self
-            .sample_list
-            .iter()
-            .filter(|cc| {
-                cc.instance_handle == sample.instance_handle && cc.kind == ChangeKind::Alive
-            })
-            .count() as u32;
 
-        if let HistoryQosPolicyKind::KeepLast(depth) = self.qos.history.kind {
-            if depth == num_alive_samples_of_instance {
-                let index_sample_to_remove = self
-                    .sample_list
-                    .iter()
-                    .position(|cc| {
-                        cc.instance_handle == sample.instance_handle && cc.kind == ChangeKind::Alive
-                    })
-                    .expect("Samples must exist");
-                self.sample_list.remove(index_sample_to_remove);
-            }
+        if replaces_oldest_sample {
+            let index_sample_to_remove = self
+                .sample_list
+                .iter()
+                .position(|cc| {
+                    cc.instance_handle == sample.instance_handle && cc.kind == ChangeKind::Alive
+                })
+                .expect("Samples must exist");
+            self.sample_list.remove(index_sample_to_remove);
         }
 
         match sample.kind {
